@@ -3,6 +3,7 @@ package c10
 import (
 	"fmt"
 	"math/big"
+	"sort"
 	"strings"
 	"testing"
 
@@ -49,6 +50,7 @@ var objKinds = []string{
 	"ring.Ring.AtLevel", "ringqp.Ring.AtLevel",
 	"ring.UniformSampler.AtLevel", "ring.GaussianSampler.AtLevel", "ring.TernarySampler.AtLevel", "ringqp.UniformSampler.AtLevel",
 	"ring.UniformSampler.WithPRNG", "ringqp.UniformSampler.WithPRNG",
+	"rlwe.MemEvaluationKeySet.ShallowCopy",
 }
 
 func genObjCase(t *rapid.T) ObjCase {
@@ -64,10 +66,12 @@ func genObjCase(t *rapid.T) ObjCase {
 		c.LogScale = rapid.IntRange(20, 45).Draw(t, "logScale")
 		c.Prec = pick(t, "prec", uint(0), 0, 53, 64, 128)
 	case strings.HasPrefix(c.Kind, "ring.BasisExtender"), strings.HasPrefix(c.Kind, "ringqp."):
-		c.RLWE = h.GenRLWESpec(t, h.RLWEOpts{MinLogN: 4, MaxLogN: 6, MinQ: 1, MaxQ: 4, MinP: 1, MaxP: 3, MinBits: 30, MaxBits: 60, NTT: &tr, DefaultDists: true})
+		lo, hi := bigLogN(t, 4, 6)
+		c.RLWE = h.GenRLWESpec(t, h.RLWEOpts{MinLogN: lo, MaxLogN: hi, MinQ: 1, MaxQ: 4, MinP: 1, MaxP: 3, MinBits: 30, MaxBits: 60, NTT: &tr, DefaultDists: true})
 	default:
 		// encryption / decryption scenarios carry a noise oracle: keep Q >= 2^40 so that the bound is << Q
-		c.RLWE = h.GenRLWESpec(t, h.RLWEOpts{MinLogN: 4, MaxLogN: 6, MinQ: 1, MaxQ: 3, MinP: 0, MaxP: 2, MinBits: 40, MaxBits: 60, AllowCI: true, PBits: 61})
+		lo, hi := bigLogN(t, 4, 6)
+		c.RLWE = h.GenRLWESpec(t, h.RLWEOpts{MinLogN: lo, MaxLogN: hi, MinQ: 1, MaxQ: 3, MinP: 0, MaxP: 2, MinBits: 40, MaxBits: 60, AllowCI: true, PBits: 61})
 	}
 	if strings.Contains(c.Kind, "Sampler") {
 		// the sampler kind under test is built explicitly; parameters only provide the rings
@@ -325,6 +329,52 @@ func buildSubject(c ObjCase) (*subject, error) {
 					ct := enc.EncryptZeroNew(lvl(i))
 					return decryptsTo(p, dk, ct, nil, bound)
 				}
+			})
+		}
+
+	case "rlwe.MemEvaluationKeySet.ShallowCopy":
+		// "ShallowCopy returns a thread-safe copy of the underlying object": every goroutine reads keys through its own
+		// copy (of a copy) and uses them in its own evaluator
+		kgen := rlwe.NewKeyGenerator(p)
+		sk := kgen.GenSecretKeyNew()
+		var rlk *rlwe.RelinearizationKey
+		if c.KeyKind != "nil" {
+			rlk = kgen.GenRelinearizationKeyNew(sk)
+		}
+		rots := []int{1, 2, 5}
+		var gks []*rlwe.GaloisKey
+		for _, k := range rots[:1+rng.Intn(3)] {
+			gks = append(gks, kgen.GenGaloisKeyNew(p.GaloisElement(k), sk))
+		}
+		orig := rlwe.NewMemEvaluationKeySet(rlk, gks...)
+		cpSet := orig.ShallowCopy()
+		s.orig, s.cp, s.ref, s.exact, s.concurrent = orig, cpSet, orig, true, true
+		s.feats = append(s.feats, "keyset")
+		s.another = func() any { return cpSet.ShallowCopy() }
+		ct := rlwe.NewCiphertextRandom(prng, p, 1, lvl(0))
+		ct.IsNTT = p.NTTFlag()
+		ct2 := rlwe.NewCiphertextRandom(prng, p, 2, lvl(1))
+		ct2.IsNTT = p.NTTFlag()
+		s.run = func(obj any, i int) string {
+			ks := obj.(rlwe.EvaluationKeySet)
+			return safe(func() string {
+				switch i % 4 {
+				case 0:
+					l := append([]uint64(nil), ks.GetGaloisKeysList()...)
+					sort.Slice(l, func(a, b int) bool { return l[a] < l[b] })
+					return fmt.Sprint(l)
+				case 1:
+					gk, err := ks.GetGaloisKey(p.GaloisElement(rots[i%3]))
+					if err != nil {
+						return "err"
+					}
+					return dg(gk)
+				case 2:
+					out := rlwe.NewCiphertext(p, 1, ct.Level())
+					return dgCt(out, rlwe.NewEvaluator(p, ks).Automorphism(ct, p.GaloisElement(rots[i%3]), out))
+				}
+				out := rlwe.NewCiphertext(p, 1, ct2.Level())
+				return dgCt(out, rlwe.NewEvaluator(p, ks).Relinearize(ct2, out))
 			})
 		}
 
@@ -752,6 +802,12 @@ func runObj(c ObjCase, rec *h.Rec) error {
 	}
 	before := takeSnapshot(s.orig)
 	got := runSeq(s, s.cp, c.NOps)
+	if !sampler {
+		// second life of the copy on other operation indices (other inputs / levels): see perturbOps
+		for i := c.NOps + 6; i > c.NOps; i-- {
+			s.run(s.cp, i)
+		}
+	}
 	after := takeSnapshot(s.orig)
 
 	if s.exact {
@@ -848,6 +904,6 @@ func runObj(c ObjCase, rec *h.Rec) error {
 	return nil
 }
 
-var propObj = h.NewProp("TestPropObjectCopy", h.Budget{Quick: 500, Thorough: 20000}, genObjCase, runObj)
+var propObj = h.NewProp("TestPropObjectCopy", h.Budget{Quick: 500, Thorough: 10000}, genObjCase, runObj)
 
 func TestPropObjectCopy(t *testing.T) { propObj.Check(t) }
